@@ -114,8 +114,8 @@ Proof.
 Qed.
 
 (* ---- composition ---- *)
-Lemma csem_compose a c p : csem (ccompose a c) p = run_gates p (snd c) (csem a p).
-Proof. unfold csem, ccompose, run_gates. simpl. apply fold_left_app. Qed.
+Lemma csem_compose a c p : csem (ccompose a c) p = capply c p (csem a p).
+Proof. unfold csem, ccompose, capply, run_gates. simpl. apply fold_left_app. Qed.
 
 (* ---- the instance's pass managers are semantics preserving ---- *)
 Lemma apply_gate_rename pi p g s : apply_gate p (cpermute pi s) (rename_gate pi g) = cpermute pi (apply_gate p s g).
@@ -156,21 +156,33 @@ Proof. intros c p. simpl. unfold cpermute. symmetry. apply map_id. Qed.
 Definition csampler1 := ideal_sampler1 csem cread ccounts_of.
 Definition cestimator1 := ideal_estimator1 csem cexpect.
 
+(* np, n: number of parameters per circuit and of qubits.  The wf_* premises are not needed by the proofs (the functions
+   are total); they delimit the inputs on which the instance describes Qiskit (no default is used). *)
 Theorem classical_sampler_paths :
-  forall st shots alpha init circuits pvals,
+  forall st shots alpha np init circuits pvals,
     stack_ok csem cpermute st -> shots <> 0%Z -> alpha_ok alpha = true ->
+    wf_call np init circuits pvals = true -> wf_sampler_call shots init circuits pvals = true ->
     (forall ob, eval_operator_sampler ccompose cwid cagg_op (wrap_sampler cwmap st (pointwise csampler1)) shots ob alpha init circuits pvals
-                = Ok (map (objective_op csem ccompose cwid cread ccounts_of cagg_op shots ob alpha init) (combine circuits pvals)))
-    /\ (forall f, eval_bitstring ccompose cwid cagg_bits (wrap_sampler cwmap st (pointwise csampler1)) shots f alpha init circuits pvals
-                = Ok (map (objective_bits csem ccompose cwid cread ccounts_of cagg_bits shots f alpha init) (combine circuits pvals))).
-Proof. intros. apply sampler_paths with (permute := cpermute); auto using cread_permute. Qed.
+                = Ok (map (objective_op csem ccompose capply cwid cread ccounts_of cagg_op shots ob alpha init) (combine circuits pvals)))
+    /\ (forall f n, wf_table n f = true -> Forall (fun c : ccirc => fst c = n) circuits ->
+                  eval_bitstring ccompose cwid cagg_bits (wrap_sampler cwmap st (pointwise csampler1)) shots f alpha init circuits pvals
+                  = Ok (map (objective_bits csem ccompose capply cwid cread ccounts_of cagg_bits shots f alpha init) (combine circuits pvals))).
+Proof.
+  intros st shots alpha np init circuits pvals Hok Hs Ha _ _.
+  destruct (sampler_paths csem ccompose capply cpermute cwid cwmap cread ccounts_of cagg_op cagg_bits
+              csem_compose cread_permute csampler1 (fun pub => eq_refl) st shots alpha init circuits pvals Hok Hs Ha) as [H1 H2].
+  split; [exact H1 | intros f n _ _; apply H2].
+Qed.
 
 Theorem classical_estimator_path :
-  forall st ob init circuits pvals,
-    stack_ok csem cpermute st ->
+  forall st ob np init circuits pvals,
+    stack_ok csem cpermute st -> wf_call np init circuits pvals = true ->
     eval_estimator ccompose (wrap_estimator crelabel false st (pointwise cestimator1)) ob init circuits pvals
-    = Ok (map (objective_est csem ccompose cexpect ob init) (combine circuits pvals)).
-Proof. intros. apply estimator_path with (permute := cpermute); auto using cexpect_relabel. Qed.
+    = Ok (map (objective_est csem capply cexpect ob init) (combine circuits pvals)).
+Proof.
+  intros st ob np init circuits pvals Hok _.
+  apply estimator_path with (permute := cpermute); auto using cexpect_relabel, csem_compose.
+Qed.
 
 (* ---- the legacy transpiling estimator (observable left on the virtual qubits) is refuted ---- *)
 (* rx(pi) on qubit 0 of 3, observable Z on qubit 0 ("IIZ"), layout [2,1,0] = the transposition (0 2): F-C03 *)
@@ -183,7 +195,7 @@ Definition w_stack : stack ccirc clayout (epub ccirc cobs cparams) := STranspile
 Lemma estimator_layout_refuted :
   stack_ok csem cpermute w_stack
   /\ eval_estimator ccompose (wrap_estimator crelabel true w_stack (pointwise cestimator1)) w_obs None [w_circ] [w_params] = Ok [1%Q]
-  /\ map (objective_est csem ccompose cexpect w_obs None) (combine [w_circ] [w_params]) = [(-1)%Q]
+  /\ map (objective_est csem capply cexpect w_obs None) (combine [w_circ] [w_params]) = [(-1)%Q]
   /\ eval_estimator ccompose (wrap_estimator crelabel false w_stack (pointwise cestimator1)) w_obs None [w_circ] [w_params] = Ok [(-1)%Q].
 Proof.
   split; [split; [apply pm_route_preserving | exact I]|].
@@ -203,12 +215,14 @@ Definition ex_stack : stack ccirc clayout (spub ccirc cparams cwiring) :=
 Lemma example_batch_sampler :
   stack_ok csem cpermute ex_stack
   /\ eval_operator_sampler ccompose cwid cagg_op (wrap_sampler cwmap ex_stack (pointwise csampler1)) 64 ex_obs (1 # 2)
-                           (Some ex_init) [ex_bell; ex_flip] [[]; [3%Z]] = Ok [(-3 # 2)%Q; (3 # 2)%Q]
-  /\ map (objective_op csem ccompose cwid cread ccounts_of cagg_op 64 ex_obs (1 # 2) (Some ex_init))
-         (combine [ex_bell; ex_flip] [[]; [3%Z]]) = [(-3 # 2)%Q; (3 # 2)%Q].
+                           (Some ex_init) [ex_bell; ex_flip] [[0%Z]; [3%Z]] = Ok [(-3 # 2)%Q; (3 # 2)%Q]
+  /\ map (objective_op csem ccompose capply cwid cread ccounts_of cagg_op 64 ex_obs (1 # 2) (Some ex_init))
+         (combine [ex_bell; ex_flip] [[0%Z]; [3%Z]]) = [(-3 # 2)%Q; (3 # 2)%Q]
+  /\ wf_call 1 (Some ex_init) [ex_bell; ex_flip] [[0%Z]; [3%Z]] = true
+  /\ wf_sampler_call 64 (Some ex_init) [ex_bell; ex_flip] [[0%Z]; [3%Z]] = true.
 Proof.
   split; [split; [apply pm_route_preserving | exact I]|].
-  split; vm_compute; reflexivity.
+  repeat split; vm_compute; reflexivity.
 Qed.
 
 (* ---- unsimplified operators: repeated Pauli strings add up (the value is the sum over ALL terms) ---- *)
